@@ -2,3 +2,13 @@
 answers "is this that mechanism?".  Keyed by mechanism, never by seed, case hash
 or random values.  Entries live in /verif/known_findings.json (committed, never
 written at run time)."""
+
+
+def c11_symbolic_sqrt_family(w):
+    """register(symbolic=True) of a program using sqrt()/norm()/normalized()/**0.5 raises TypeError out of power_supply."""
+    prog = w.get('program') or {}
+    return (w.get('kind') == 'registered function raises where the plain function returns'
+            and w.get('mode') == 'symbolic'
+            and w.get('exc_type') == 'TypeError'
+            and str(w.get('exc_where') or '').endswith(':power_supply')
+            and 'sqrtfam' in (prog.get('feats') or []))
